@@ -504,14 +504,21 @@ def main_entry(argv):
 
 
 def b_json(r):
-    """Behaviours printed as <<"B", ToJson(x)>>: returns the decoded JSON values."""
+    """Behaviours printed as <<"B", ToJson(x)>>: returns the decoded JSON values.  A line that TLC's
+    periodic progress output cut in two does not decode; such lines are dropped and counted in
+    r.dropped (callers may record it)."""
     out = []
+    r.dropped = 0
     for line in r.printed:
-        i = line.index(",") + 1
-        lit = line[i:].strip()
-        assert lit.endswith(">>")
-        lit = lit[:-2].strip()
-        out.append(json.loads(json.loads(lit)))
+        try:
+            i = line.index(",") + 1
+            lit = line[i:].strip()
+            if not lit.endswith(">>"):
+                raise ValueError("truncated")
+            lit = lit[:-2].strip()
+            out.append(json.loads(json.loads(lit)))
+        except (ValueError, AssertionError):
+            r.dropped += 1
     return out
 
 
